@@ -166,6 +166,18 @@ CHECK_DEADLOCK FALSE
 OBJECTIVE = {"module": "solver/Trace_Objective", "cfg": OBJECTIVE_CFG}
 
 
+PROP_INVARIANTS = {"C04": ("CounterFaithful", "EvalMonFaithful", "GensAreIterations", "StoppedMonitorComplete",
+                           "OneCallbackPerStep"),
+                   "C05": ("NoOvershoot", "GensNeverExceed", "MsgTruthful", "TraceIterOnlyIfAllowed")}
+
+
+def waived(prop):
+    """the lifecycle trace specification with the clauses and invariants of `prop` waived (Trace_Lifecycle.Waive):
+    used to judge the rest of a trace on the other property once the faithful specification rejected it on `prop`"""
+    cfg = "\n".join(l for l in TRACE_CFG.splitlines() if not any(l.split()[-1:] == [n] for n in PROP_INVARIANTS[prop])) + "\n"
+    return {"module": "solver/Trace_Lifecycle", "cfg": cfg, "waive": prop}
+
+
 def _validate_batch(traces, diag=False, timeout=1800, spec=None):
     spec = spec or LIFECYCLE
     d = scratch_dir()
@@ -179,6 +191,8 @@ def _validate_batch(traces, diag=False, timeout=1800, spec=None):
         env = {"TRACE_FILE": path}
         if diag:
             env["DIAG"] = "1"
+        if spec.get("waive"):
+            env["WAIVE"] = spec["waive"]
         r = run_tlc(spec["module"], cfg=cfgp, env=env, workers=1, timeout=timeout, heap="4g")
         return r
     finally:
